@@ -1,5 +1,5 @@
 """C09 - get_reusable_executor always returns a live, correctly configured singleton."""
-from .base import Prop, V, gen_knobs, gen_model, submit_op, hang_violations, fut_state
+from .base import focus_hot, Prop, V, gen_knobs, gen_model, submit_op, hang_violations, fut_state
 from . import execfam as X
 
 KW_POOL = dict(
@@ -68,7 +68,7 @@ def gen(rng, tier):
     faults = []
     if crash and rng.random() < 0.4:
         faults.append(dict(kind="kill", target=["w", rng.randrange(4)], sig=9, at=["op", rng.randint(1, 100)]))
-    return dict(family="reusable", knobs=gen_knobs(rng, tier), model=gen_model(rng), threads=threads, faults=faults,
+    return dict(family="reusable", knobs=focus_hot(rng, gen_knobs(rng, tier), threads), model=gen_model(rng), threads=threads, faults=faults,
                 nthreads=nthreads)
 
 
